@@ -1,19 +1,20 @@
 #!/bin/bash
 # Regression test for the soundness holes found by the red team (tools/rs2coq/redteam/*.diff):
 # each diff changes the run-time behaviour of the Rust source.  Applied to a scratch copy of /repo,
-# the translator must NOT produce ten outputs byte-identical to /verif/coq/gen: something must be
+# the translator must NOT produce the 13 outputs byte-identical to /verif/coq/gen: something must be
 # OMITTED, or the exit status must be 2, or the text must change.  For the holes whose text did
 # change but whose proofs still passed (13 14 24 25 26, L1, L2) an OMITTED / exit 2 is required.
 # The unmodified source must give byte-identical outputs and `rs2coq: omitted: none`.
-#   redteam_check.sh [DIFF_DIR ...]  (default /verif/tools/rs2coq/redteam /verif/tools/rs2coq/redteam2)
+#   redteam_check.sh [DIFF_DIR ...]  (default: the three rounds redteam redteam2 redteam3 under /verif/tools/rs2coq)
 # Round 2 (redteam2): OMITTED / exit 2 is also required for its holes 09 12 13 14 17 18.
+# Round 3 (redteam3): all 13 diffs left the outputs byte-identical: OMITTED / exit 2 is required for each.
 set -u
 HERE="$(cd "$(dirname "$0")" && pwd)"
-if [ $# -gt 0 ]; then DIRS="$*"; else DIRS="/verif/tools/rs2coq/redteam /verif/tools/rs2coq/redteam2"; fi
+if [ $# -gt 0 ]; then DIRS="$*"; else DIRS="/verif/tools/rs2coq/redteam /verif/tools/rs2coq/redteam2 /verif/tools/rs2coq/redteam3"; fi
 GEN=/verif/coq/gen
 BIN="${RS2COQ_BIN:-/verif/.cache/rs2coq-target/release/rs2coq}"
 W="${TMPDIR:-/var/tmp}/rs2coq_redteam"
-FILES="Src SrcBigint SrcSlow SrcParse SrcFrontSimple SrcFrontFuzz SrcFrontTest SrcFrontEtc SrcStackVec SrcHeapVec"
+FILES="Src SrcBigint SrcSlow SrcParse SrcFrontSimple SrcFrontFuzz SrcFrontTest SrcFrontEtc SrcStackVec SrcHeapVec SrcFrontRng SrcFrontRand SrcFrontUnit"
 rm -rf "$W"; mkdir -p "$W"
 fails=0
 
@@ -40,7 +41,7 @@ run() {  # $1 = work dir; sets rc, identical, omitted
 copy_repo "$W/base/repo"
 run "$W/base"
 if [ $rc -eq 0 ] && [ "$identical" = yes ] && [ "$omitted" = none ]; then
-  echo "[baseline] exit 0, ten outputs byte-identical to $GEN, omitted: none"
+  echo "[baseline] exit 0, 13 outputs byte-identical to $GEN, omitted: none"
 else
   echo "[baseline] FAILED: exit $rc, identical=$identical, omitted: $omitted"; fails=$((fails+1))
 fi
@@ -57,7 +58,7 @@ for d in "$DIFFS"/*.diff; do
   run "$W/$n"
   strict=no
   case "$n" in redteam-hole13|redteam-hole14|redteam-hole24|redteam-hole25|redteam-hole26|redteam-latent_*) strict=yes;; esac
-  case "$n" in redteam2-*) strict=yes;; esac
+  case "$n" in redteam2-*|redteam3-*) strict=yes;; esac
   if [ $rc -eq 2 ]; then
     how="exit 2: $(grep -m1 'ERROR' "$W/$n/log" | cut -c1-170)"; ok=yes
   elif [ $rc -ne 0 ]; then
